@@ -25,6 +25,31 @@
 //	    Statements that only assign variables of non-integer types (objects) and bare calls are
 //	    skipped: the region describes the integer data flow only.
 //
+//
+// Round 4 (work package c16tie) — whole methods that MUTATE their receiver (run-time: lean/Gzx/GoMTie.lean):
+//      * every translatable field of a struct parameter (`b.bits`, `b.size` …) is a local of the translation: `b.f = v`,
+//        `b.f[i] op= v`, `b.f++` rebind it (SSA style); the fields written through a POINTER parameter are returned after
+//        the Go results, in parameter / field order (a method without results returns just them); a slice parameter whose
+//        elements are written is returned the same way.  Two pointer parameters are assumed not to alias;
+//      * `x == nil` of a pointer-to-struct parameter is the Bool parameter `x_isNil`; a result of type *T whose every
+//        `return` yields a struct parameter or `&T{…}` is returned as the fields of T; `x = F(args)` with F such a
+//        constructor translated earlier re-points the struct parameter;
+//      * `r.M(args)` with r a struct parameter and M a method translated EARLIER into the same module (its only struct
+//        parameter being its receiver): as an expression when M writes nothing, as a statement otherwise (the written
+//        fields of r are rebound); `copy(dst, src)` / `copy(dst[a:b], src)` on local / field slices (`cap = len`);
+//      * `for cond { … }` (and any `for init; cond; post` whose header is not counted: non-constant step, bound that the
+//        body changes, loop variable assigned in the body): `Gzx.GoM.whileLoop body fuel st`, the definition then takes
+//        `(fuel : Nat)` first; conjuncts of the condition are tested left to right, so a checked read on the right of `&&`
+//        is only made when the left holds; `for i := range xs` whose body writes elements of xs (no value variable);
+//      * `a[i], a[j] = a[j], a[i]`: operands first, then the writes left to right on the same slice;
+//      * `bits.Reverse32` / `bits.TrailingZeros32` as the specified functions `Gzx.GoM.rev32` / `tz32`; `[]int{…}` and `nil`
+//        as results of slice type; `int(<float64 expression>)` with the float arithmetic as Lean `Float` (opaque to proofs:
+//        the kernel keeps a definition, its theorem fails by name); Go identifiers that are Lean keywords are escaped;
+//      * block scoping: names declared in a nested block go out of scope at its end (sibling blocks may reuse a name);
+//      * in functions that work on slice state of a struct parameter ("tie mode") an `if` whose branches fall through and
+//        which is followed by more statements is ONE control value (`.next (vars)` per branch, joined by `thenR`/`thenC`)
+//        instead of the continuation being duplicated into both branches.
+//
 // A function that does not fit yields NO definition, `untranslatable` in gen-manifest.json and
 // `def has_<leanName> : Bool := false` in the generated module.
 package main
